@@ -568,6 +568,17 @@ SEEDS = [
                 if parent.left != index {
                     break;
                 }""", note='successor climb continues while arriving from the left'),
+    dict(id='CL1-set-after-climb-node-is-new-parent', props=['C09', 'C02'], file='src/set/tree.rs',
+         old="""                if parent.right != index {
+                    break;
+                }
+                index = parent_index;
+                parent_index = parent.parent;""",
+         new="""                if parent.right != index {
+                    break;
+                }
+                parent_index = parent.parent;
+                index = parent_index;""", note='node cursor advanced to the new parent (order of the two updates swapped)'),
     dict(id='NB2-set-after-right-minimum', props=['C09'], file='src/set/tree.rs',
          old="""        if node.right != EMPTY_REF {
             self.find_left_minimum(node.right)""",
